@@ -1,6 +1,575 @@
-import Luqum.Model.Transform
-import Luqum.Model.ParserInst
+/-
+  C11 — printing the result of a shipped tree transformer and parsing it again.
+
+  For a parsed query `t` and a shipped transformer `T` (default copy, `auto_head_tail`,
+  `OpenRangeTransformer`, `UnknownOperationResolver`): `parser.parse(T(t).__str__(head_tail=True))`
+  is equal (`==`) to the normal form `norm (T t)` of the transformed tree, hence has the same
+  boolean meaning over the same terms, fields, ranges and modifiers.
+
+  0. `norm` (nested operations of the same class flattened, one-operand operations unwrapped: what
+     printing cannot show), `evalB_norm` / `meaning_norm` (normalisation keeps the boolean meaning),
+     `norm_of_canon`, and the generic theorem `reparse_norm`.
+  Every theorem comes for any `printable` tree (`…_printable`; Props/Reparse) and, as a corollary,
+  for a parsed tree (`…_partial`, up to KF1: no separator directly before a `:` in the query).
+  1. `c11_copy_printable`, `c11_copy_partial`
+  2. `c11_aht_printable`, `c11_aht_partial`
+  3. `c11_openrange_printable`, `c11_openrange_partial` (`add_head` blank and not empty);
+     `c11_openrange_merge_printable_partial`, `c11_openrange_merge_partial` (up to KF12, a finding
+     made here: the separator after a merged-away last operand is lost; hypothesis: the adjacency
+     condition of the result), `c11_openrange_merge_noAnd_partial`
+  4. `c11_resolve_printable_partial`, `c11_resolve_partial` (AND / OR; up to KF6: a looser operation as
+     direct operand of a resolved operation, `noLooserOperand`; KF7: the operator word glued to the
+     operand before it, hypothesis: the adjacency condition of the result); `resolved_gluesOK`,
+     `c11_resolve_query_partial` (KF7 as a condition on the query, `wordAfterOK`);
+     `c11_resolve_or_partial` (no KF6 when resolving to OR); the lucene mode:
+     `c11_resolve_lucene_printable_partial`, `c11_resolve_lucene_partial`,
+     `c11_resolve_lucene_noAndOr_partial`; `c11_meaning`
+  5. kernel-checked witnesses: non-vacuity of every theorem on a query with a group, a field, a
+     range, a boost, NOT and several operations; the findings KF1 / KF8, KF6, KF7, KF12 and the empty
+     `add_head`.
+  The lemmas are in Luqum/Lemmas/Trans*.lean.
+-/
+import Luqum.Lemmas.TransAht
+import Luqum.Lemmas.TransRangeChain
+import Luqum.Lemmas.TransResolveChain
+import Luqum.Lemmas.TransLucene
+import Luqum.Lemmas.TransMeaning
+import Luqum.Props.Reparse
+import Luqum.Props.C08
+import Luqum.Props.C10
+import Luqum.Props.C12
+import Luqum.Props.C13
+
 namespace Luqum.Props.C11
 open Luqum
-theorem copy_term (k : TermK) (v : Str) (l : Lay) : (Tree.term k v l).copy.full .norm = (Tree.term k v l).full .norm := rfl
+open Luqum.Props.Reparse (printable reparse_of_printable parse_printable parse_print_parse)
+open Luqum.Props.C01 (noBlankBeforeColon)
+open Luqum.Props.LX (treeGluesOK treePieces treeTrail)
+open Luqum.Props.C10 (evalB relabel opKOf resolve_explicit)
+open Luqum.Props.C09 (content)
+
+/-! ### (0) the normal form -/
+
+export Luqum (norm normOps splice wrapOp pushFront pushBack PreCanonAt preOperandOK noLooserOperand
+  wordAfterOK initAll)
+
+/-- an operand of a `k`-operation that is a `k`-operation is replaced by its operands: its head goes
+in front of the head of the first one, its tail behind the tail of the last one -/
+example (k : OpK) (a b c : Tree) (l1 l : Lay) (hk : k ≠ .bool)
+    (ha : isOp' a = false) (hb : isOp' b = false) (hc : isOp' c = false) :
+    norm (.op k [.op k [a, b] l1, c] l) =
+      .op k [(norm a).setHead (l1.head ++ (norm a).head), (norm b).setTail ((norm b).tail ++ l1.tail),
+        norm c] l := by
+  have e : ∀ x : Tree, isOp' x = false → splice k (norm x) = [norm x] :=
+    fun x hx => splice_nonop k (norm_nonop x hx).1
+  have e2 : norm (.op k [a, b] l1) = .op k [norm a, norm b] l1 := by
+    rw [norm_op k _ _ hk]; simp [normOps, e a ha, e b hb, wrapOp]
+  rw [norm_op k _ _ hk]
+  simp only [normOps, e2, e c hc]
+  simp [splice, wrapOp, pushFront, pushBack]
+
+/-- an operation with one operand is replaced by this operand (it is printed as the operand) -/
+example (k : OpK) (a : Tree) (l : Lay) (hk : k ≠ .bool) (ha : isOp' a = false) :
+    norm (.op k [a] l) = ((norm a).setHead (l.head ++ (norm a).head)).setTail ((norm a).tail ++ l.tail) := by
+  rw [norm_op k _ _ hk]
+  simp [normOps, splice_nonop k (norm_nonop a ha).1, wrapOp]
+
+/-- a `BoolOperation` is kept as it is; ranges, fuzzy / proximity terms and open ranges are leaves -/
+example (xs : List Tree) (a b : Tree) (il ih : Bool) (l : Lay) :
+    norm (.op .bool xs l) = .op .bool xs l ∧ norm (.range a b il ih l) = .range a b il ih l :=
+  ⟨rfl, rfl⟩
+
+/-- **a canonical tree (every parsed tree) is its own normal form** -/
+theorem norm_of_canon (u : Tree) (uf : Bool) (h : CanonAt uf u = true) : norm u = u :=
+  Luqum.norm_of_canon u uf h
+
+theorem norm_parsed (q : Str) (t : Tree) (h : parse q = .ok t) : norm t = t :=
+  norm_of_canon t false (Reparse.parse_canon q t h)
+
+/-- **normalisation keeps the boolean meaning** (`evalB` of C10): on every document `τ`, in every
+field context, when an implicit operation is read as AND or as OR (under the reading
+`BoolOperation` flattening an implicit operation is not meaning-preserving) -/
+theorem evalB_norm (dflt : OpK) (hd : dflt = .and ∨ dflt = .or) (τ : Option Str → Str → Bool)
+    (fld : Option Str) (u : Tree) : evalB dflt τ fld (norm u) = evalB dflt τ fld u :=
+  Luqum.evalB_norm dflt hd τ u fld
+
+/-- `evalB` does *not* depend on the content only: the leaves of the boolean structure (ranges,
+fuzzy / proximity terms, open ranges) are keyed by their printed form, blanks included.  Two equal
+(`==`) ranges, a document that tells them apart: -/
+example :
+    let a : Tree := .range (.term .word ['1'] {}) (.term .word ['2'] {}) true true {}
+    let b : Tree := .range (.term .word ['1'] { tail := [' '] }) (.term .word ['2'] {}) true true {}
+    a.eqv b = true ∧
+    evalB .and (fun _ v => v == "[1TO2]".toList) none a ≠ evalB .and (fun _ v => v == "[1TO2]".toList) none b := by
+  decide +kernel
+
+/-- the boolean meaning of a tree with layout and numeral spelling disregarded: `evalB` of the
+`content` (C09) of the tree, in which every leaf is keyed by its canonical printed form -/
+def meaning (dflt : OpK) (τ : Option Str → Str → Bool) (fld : Option Str) (t : Tree) : Bool :=
+  evalB dflt τ fld (content t)
+
+/-- **equal (`==`) trees have the same meaning** -/
+theorem meaning_eqv (dflt : OpK) (τ : Option Str → Str → Bool) (fld : Option Str) (a b : Tree)
+    (h : a.eqv b = true) : meaning dflt τ fld a = meaning dflt τ fld b := by
+  unfold meaning; rw [(C09.eqv_iff_content a b).1 h]
+
+/-- **normalisation keeps the meaning** -/
+theorem meaning_norm (dflt : OpK) (hd : dflt = .and ∨ dflt = .or) (τ : Option Str → Str → Bool)
+    (fld : Option Str) (u : Tree) : meaning dflt τ fld (norm u) = meaning dflt τ fld u := by
+  unfold meaning; rw [content_norm, Luqum.evalB_norm dflt hd τ _ fld]
+
+/-- hence: a tree equal (`==`) to the normal form of `u` has the meaning of `u` -/
+theorem meaning_of_eqv_norm (dflt : OpK) (hd : dflt = .and ∨ dflt = .or) (τ : Option Str → Str → Bool)
+    (fld : Option Str) (r u : Tree) (h : r.eqv (norm u) = true) :
+    meaning dflt τ fld r = meaning dflt τ fld u :=
+  (meaning_eqv dflt τ fld r _ h).trans (meaning_norm dflt hd τ fld u)
+
+/-! ### the generic theorem -/
+
+theorem treeGluesOK_eq (s : NumStyle) (u : Tree) :
+    treeGluesOK s u = gluesOK (u.pcs s []).1 (u.pcs s []).2 := rfl
+
+/-- the chain condition of a printable tree, computed on the tree -/
+theorem chain_of_printable (u : Tree) (h : printable u = true) : u.chainAt .norm [] = true := by
+  simp only [printable, Bool.and_eq_true] at h
+  obtain ⟨⟨⟨⟨⟨h1, _⟩, _⟩, h4⟩, h5⟩, h6⟩ := h
+  exact chainAt_of_glues .norm u h1 h5 (validNums_norm u h4) h6
+
+/-- a tree is printable if it has a blank layout, is canonical, its words, numerals and token texts
+are fine, and the chain condition holds -/
+theorem printable_of_chain (u : Tree) (hb : u.blankLayout = true) (hc : CanonAt false u = true)
+    (hw : WordsOK u = true) (hn : numsOK u = true) (ht : validTexts u = true)
+    (hch : u.chainAt .norm [] = true) : printable u = true := by
+  simp only [printable, Bool.and_eq_true]
+  exact ⟨⟨⟨⟨⟨hb, hc⟩, hw⟩, hn⟩, ht⟩, glues_of_chainAt .norm u ht (validNums_norm u hn) hch⟩
+
+/-- **print-and-reparse up to normalisation**: a tree with a blank layout, canonical up to
+same-class nesting and one-operand operations, whose words, numerals and token texts are fine and
+which satisfies the adjacency condition, is printed as a text that parses into a tree equal (`==`) to
+its normal form -/
+theorem reparse_norm (u : Tree) (hb : u.blankLayout = true) (hc : PreCanonAt false u = true)
+    (hw : WordsOK u = true) (hn : numsOK u = true) (ht : validTexts u = true)
+    (hg : treeGluesOK .norm u = true) :
+    ∃ r, parse u.strHT = .ok r ∧ r.eqv (norm u) = true := by
+  have hch : u.chainAt .norm [] = true := chainAt_of_glues .norm u hb ht (validNums_norm u hn) hg
+  have hp : printable (norm u) = true :=
+    printable_of_chain (norm u) (blankLayout_norm u hb) (canon_norm u false hc).1
+      (norm_keeps keeps_wordsOK u hw) (norm_keeps keeps_numsOK u hn) (norm_keeps keeps_validTexts u ht)
+      (by rw [chainAt_norm .norm u false [] hc]; exact hch)
+  obtain ⟨r, hr, he⟩ := reparse_of_printable (norm u) hp
+  refine ⟨r, ?_, he⟩
+  have : (norm u).strHT = u.strHT := full_norm .norm u false hc
+  rw [← this]; exact hr
+
+/-! ### (1) the default transformer -/
+
+/-- the hypotheses of the print-and-reparse theorem pass to a tree that differs by blanks put into
+empty heads and tails, and by dropped names -/
+theorem printable_layRel {t' t : Tree} (hr : Lemmas.Aht.layRel t' t) (hp : printable t = true) :
+    printable t' = true := by
+  have hch := chain_of_printable t hp
+  simp only [printable, Bool.and_eq_true] at hp
+  obtain ⟨⟨⟨⟨⟨h1, h2⟩, h3⟩, h4⟩, h5⟩, _⟩ := hp
+  exact printable_of_chain t' (layRel_blank t' t hr h1) (by rw [layRel_canon t' t false hr]; exact h2)
+    (by rw [layRel_wordsOK t' t hr]; exact h3) (by rw [layRel_numsOK t' t hr]; exact h4)
+    (by rw [layRel_validTexts t' t hr]; exact h5) (layRel_chain .norm t' t [] [] hr (Rel.refl _) hch)
+
+/-- **default `TreeTransformer`, any printable tree** (built by a program or parsed): the printed copy
+parses into a tree equal (`==`) to the copy -/
+theorem c11_copy_printable (t : Tree) (hp : printable t = true) :
+    ∃ r, parse t.copy.strHT = .ok r ∧ r.eqv t.copy = true :=
+  reparse_of_printable _ (printable_layRel (layRel_copy t) hp)
+
+/-- **C11, default `TreeTransformer`** (up to KF1: no separator directly before a `:` in the query):
+the printed copy parses into a tree equal (`==`) to the copy -/
+theorem c11_copy_partial (q : Str) (t : Tree) (h : parse q = .ok t)
+    (hk : noBlankBeforeColon (lex q).1 = true) :
+    ∃ r, parse t.copy.strHT = .ok r ∧ r.eqv t.copy = true :=
+  c11_copy_printable t (parse_printable q t h hk)
+
+/-- the copy of a parsed tree is its own normal form -/
+theorem norm_copy (q : Str) (t : Tree) (h : parse q = .ok t) : norm t.copy = t.copy :=
+  norm_of_canon _ false (by rw [layRel_canon _ t false (layRel_copy t)]; exact Reparse.parse_canon q t h)
+
+/-! ### (2) `auto_head_tail` -/
+
+/-- **`auto_head_tail`, any printable tree**: the printed result parses into a tree equal (`==`) to
+the result (separators only grow, so nothing that was separated gets glued) -/
+theorem c11_aht_printable (t t' : Tree) (hp : printable t = true) (ha : aht t = some t') :
+    ∃ r, parse t'.strHT = .ok r ∧ r.eqv t' = true :=
+  reparse_of_printable t' (printable_layRel (Lemmas.Aht.aht_layRel t ha) hp)
+
+/-- **C11, `auto_head_tail`** (up to KF1) -/
+theorem c11_aht_partial (q : Str) (t t' : Tree) (h : parse q = .ok t)
+    (hk : noBlankBeforeColon (lex q).1 = true) (ha : aht t = some t') :
+    ∃ r, parse t'.strHT = .ok r ∧ r.eqv t' = true :=
+  c11_aht_printable t t' (parse_printable q t h hk) ha
+
+/-- the result for a parsed tree is its own normal form -/
+theorem norm_aht (q : Str) (t t' : Tree) (h : parse q = .ok t) (ha : aht t = some t') : norm t' = t' :=
+  norm_of_canon _ false
+    (by rw [layRel_canon _ t false (Lemmas.Aht.aht_layRel t ha)]; exact Reparse.parse_canon q t h)
+
+/-! ### (3) `OpenRangeTransformer` -/
+
+/-- the hypotheses of the print-and-reparse theorem pass to the result of
+`OpenRangeTransformer(merge_ranges=False, add_head=h)`, `h` blank and not empty -/
+theorem printable_openRange (h : Str) (hh : isBlank h = true) (hne : h ≠ []) (t : Tree)
+    (hp : printable t = true) : printable (openRange false h t) = true := by
+  have hch := chain_of_printable t hp
+  simp only [printable, Bool.and_eq_true] at hp
+  obtain ⟨⟨⟨⟨⟨h1, h2⟩, h3⟩, h4⟩, h5⟩, _⟩ := hp
+  exact printable_of_chain _ (blank_openRange false h hh t h1) (canon_openRange h t false h2)
+    (wordsOK_openRange false h t false h2 h3) (numsOK_openRange false h t h4)
+    (validTexts_openRange false h t h5) (openRange_chain .norm h hh hne t [] [] h1 (Rel.refl _) hch)
+
+/-- **`OpenRangeTransformer(merge_ranges=False, add_head=h)`, any printable tree**, for a separator
+`h` that is blank and not empty (the default is `" "`) -/
+theorem c11_openrange_printable (t : Tree) (h : Str) (hp : printable t = true) (hh : isBlank h = true)
+    (hne : h ≠ []) :
+    ∃ r, parse (openRange false h t).strHT = .ok r ∧ r.eqv (openRange false h t) = true :=
+  reparse_of_printable _ (printable_openRange h hh hne t hp)
+
+/-- **C11, `OpenRangeTransformer(merge_ranges=False, add_head=h)`** (up to KF1): the printed result
+parses into a tree equal (`==`) to the result -/
+theorem c11_openrange_partial (q : Str) (t : Tree) (h : Str) (hq : parse q = .ok t)
+    (hk : noBlankBeforeColon (lex q).1 = true) (hh : isBlank h = true) (hne : h ≠ []) :
+    ∃ r, parse (openRange false h t).strHT = .ok r ∧ r.eqv (openRange false h t) = true :=
+  c11_openrange_printable t h (parse_printable q t hq hk) hh hne
+
+/-- … the result is its own normal form -/
+theorem norm_openrange (q : Str) (t : Tree) (h : Str) (hq : parse q = .ok t) :
+    norm (openRange false h t) = openRange false h t :=
+  norm_of_canon _ false (canon_openRange h t false (Reparse.parse_canon q t hq))
+
+/-- **`OpenRangeTransformer(merge_ranges=True, add_head=h)`, any printable tree** (up to KF12): if the
+result satisfies the adjacency condition (it need not: when the last operand of an AND operation is
+merged into an earlier one, the separator behind it disappears with it, finding KF12), its printed
+form parses into a tree equal (`==`) to its normal form (a merged AND operation may be left with one
+operand, which is printed without the operation) -/
+theorem c11_openrange_merge_printable_partial (t : Tree) (h : Str) (hp : printable t = true)
+    (hh : isBlank h = true) (hg : treeGluesOK .norm (openRange true h t) = true) :
+    ∃ r, parse (openRange true h t).strHT = .ok r ∧ r.eqv (norm (openRange true h t)) = true := by
+  simp only [printable, Bool.and_eq_true] at hp
+  obtain ⟨⟨⟨⟨⟨h1, h2⟩, h3⟩, h4⟩, h5⟩, _⟩ := hp
+  exact reparse_norm _ (blank_openRange true h hh t h1)
+    (preCanon_openRange true h t false h2 (fun h => by cases h))
+    (wordsOK_openRange true h t false h2 h3) (numsOK_openRange true h t h4)
+    (validTexts_openRange true h t h5) hg
+
+/-- **C11, `OpenRangeTransformer(merge_ranges=True, add_head=h)`** (up to KF1 and KF12) -/
+theorem c11_openrange_merge_partial (q : Str) (t : Tree) (h : Str) (hq : parse q = .ok t)
+    (hk : noBlankBeforeColon (lex q).1 = true) (hh : isBlank h = true)
+    (hg : treeGluesOK .norm (openRange true h t) = true) :
+    ∃ r, parse (openRange true h t).strHT = .ok r ∧ r.eqv (norm (openRange true h t)) = true :=
+  c11_openrange_merge_printable_partial t h (parse_printable q t hq hk) hh hg
+
+/-- without an AND operation in the query nothing is merged: no adjacency hypothesis is needed -/
+theorem c11_openrange_merge_noAnd_partial (q : Str) (t : Tree) (h : Str) (hq : parse q = .ok t)
+    (hk : noBlankBeforeColon (lex q).1 = true) (hh : isBlank h = true) (hne : h ≠ [])
+    (hand : C12.hasAnd t = false) :
+    ∃ r, parse (openRange true h t).strHT = .ok r ∧ r.eqv (openRange true h t) = true := by
+  rw [C12.openRange_merge_eq_noMerge h t hand]
+  exact c11_openrange_partial q t h hq hk hh hne
+
+/-! ### (4) `UnknownOperationResolver` -/
+
+/-- what `noLooserOperand` asks of an operation -/
+example (k : OpK) (xs : List Tree) (l : Lay) :
+    noLooserOperand (.op k xs l) = (xs.all (preOperandOK k) && Luqum.noLooserOperands xs) ∧
+    (∀ x, preOperandOK k x = (operandOK k x || isOpK k x)) := ⟨rfl, fun _ => rfl⟩
+
+/-- what `wordAfterOK` asks of an operation: if it is implicit, every operand but the last satisfies
+the chain condition with the word printed right behind it -/
+example (s : NumStyle) (w : Str) (k : OpK) (xs : List Tree) (l : Lay) :
+    wordAfterOK s w (.op k xs l) =
+      ((k != .unk || initAll (fun x => x.chainAt s w) xs) && Luqum.wordAfterOKs s w xs) := rfl
+example (s : NumStyle) (w v : Str) (l : Lay) :
+    (Tree.term .word v l).chainAt s w = followOK (reservedKind v) v (l.tail ++ w) := rfl
+
+/-- **`UnknownOperationResolver(resolve_to=AndOperation / OrOperation, add_head=h)`, any printable
+tree** (up to KF6, KF7), `h` blank: if no operation of the result has a looser operation as direct
+operand (KF6: `a OR b c` resolved to AND is printed `a OR b AND c`) and the result satisfies the
+adjacency condition (KF7: `a(b)` is printed `aAND (b)`; see `resolved_gluesOK` for a condition on
+the tree itself), the printed result parses into a tree equal (`==`) to its normal form (`a AND b c`
+resolved to AND is `And(And(a, b), c)`, printed `a AND b AND c`) -/
+theorem c11_resolve_printable_partial (t : Tree) (tgt : ResolveTo) (h : Str) (hp : printable t = true)
+    (hto : tgt = .and ∨ tgt = .or) (hh : isBlank h = true)
+    (h6 : noLooserOperand (resolve tgt h t) = true)
+    (h7 : treeGluesOK .norm (resolve tgt h t) = true) :
+    ∃ r, parse (resolve tgt h t).strHT = .ok r ∧ r.eqv (norm (resolve tgt h t)) = true := by
+  simp only [printable, Bool.and_eq_true] at hp
+  obtain ⟨⟨⟨⟨⟨h1, h2⟩, h3⟩, h4⟩, h5⟩, _⟩ := hp
+  have hto' : tgt ≠ .lucene := by rcases hto with rfl | rfl <;> decide
+  have hkk : opKOf tgt = .and ∨ opKOf tgt = .or := by rcases hto with rfl | rfl <;> simp [opKOf]
+  rw [resolve_explicit tgt hto' h t] at h6 h7 ⊢
+  exact reparse_norm _ (blank_relabel _ h hh t h1) (preCanon_relabel _ hkk h t false h2 h6)
+    (by rw [wordsOK_relabel]; exact h3) (by rw [numsOK_relabel]; exact h4)
+    (by rw [validTexts_relabel]; exact h5) h7
+
+/-- **C11, `UnknownOperationResolver(resolve_to=AndOperation / OrOperation, add_head=h)`** (up to
+KF1, KF6, KF7) -/
+theorem c11_resolve_partial (q : Str) (t : Tree) (tgt : ResolveTo) (h : Str) (hq : parse q = .ok t)
+    (hk : noBlankBeforeColon (lex q).1 = true) (hto : tgt = .and ∨ tgt = .or) (hh : isBlank h = true)
+    (h6 : noLooserOperand (resolve tgt h t) = true)
+    (h7 : treeGluesOK .norm (resolve tgt h t) = true) :
+    ∃ r, parse (resolve tgt h t).strHT = .ok r ∧ r.eqv (norm (resolve tgt h t)) = true :=
+  c11_resolve_printable_partial t tgt h (parse_printable q t hq hk) hto hh h6 h7
+
+/-- **a condition on the tree for the adjacency condition of the resolved tree** (KF7): if the
+operator word can be printed right behind every operand but the last of every implicit operation
+(`wordAfterOK`: the operand ends with a separator, or with a token that is not a term), and `h` is
+blank and not empty, the resolved tree satisfies the adjacency condition -/
+theorem resolved_gluesOK (t : Tree) (tgt : ResolveTo) (h : Str) (hp : printable t = true)
+    (hto : tgt = .and ∨ tgt = .or) (hh : isBlank h = true) (hne : h ≠ [])
+    (h7 : wordAfterOK .norm (opKOf tgt).word t = true) :
+    treeGluesOK .norm (resolve tgt h t) = true := by
+  have hch := chain_of_printable t hp
+  simp only [printable, Bool.and_eq_true] at hp
+  obtain ⟨⟨⟨⟨⟨_, h2⟩, _⟩, h4⟩, h5⟩, _⟩ := hp
+  have hto' : tgt ≠ .lucene := by rcases hto with rfl | rfl <;> decide
+  have hkk : opKOf tgt = .and ∨ opKOf tgt = .or := by rcases hto with rfl | rfl <;> simp [opKOf]
+  rw [resolve_explicit tgt hto' h t]
+  exact glues_of_chainAt .norm _ (by rw [validTexts_relabel]; exact h5)
+    (validNums_norm _ (by rw [numsOK_relabel]; exact h4))
+    (relabel_chain .norm _ hkk h hh hne t false [] [] h2 (Rel.refl _) hch h7)
+
+/-- **C11, `UnknownOperationResolver`, the hypothesis for KF7 on the query** -/
+theorem c11_resolve_query_partial (q : Str) (t : Tree) (tgt : ResolveTo) (h : Str) (hq : parse q = .ok t)
+    (hk : noBlankBeforeColon (lex q).1 = true) (hto : tgt = .and ∨ tgt = .or) (hh : isBlank h = true)
+    (hne : h ≠ []) (h6 : noLooserOperand (resolve tgt h t) = true)
+    (h7 : wordAfterOK .norm (opKOf tgt).word t = true) :
+    ∃ r, parse (resolve tgt h t).strHT = .ok r ∧ r.eqv (norm (resolve tgt h t)) = true :=
+  c11_resolve_partial q t tgt h hq hk hto hh h6
+    (resolved_gluesOK t tgt h (parse_printable q t hq hk) hto hh hne h7)
+
+/-- resolving to OR never gives an operation a looser operation as direct operand: KF6 needs
+`resolve_to=AndOperation` -/
+theorem noLooser_resolve_or (t : Tree) (h : Str) (hc : CanonAt false t = true) :
+    noLooserOperand (resolve .or h t) = true := by
+  rw [resolve_explicit .or (by decide) h t]
+  exact noLooser_relabel_or h t false hc
+
+/-- **C11, `UnknownOperationResolver(resolve_to=OrOperation)`** (up to KF1 and KF7 only) -/
+theorem c11_resolve_or_partial (q : Str) (t : Tree) (h : Str) (hq : parse q = .ok t)
+    (hk : noBlankBeforeColon (lex q).1 = true) (hh : isBlank h = true) (hne : h ≠ [])
+    (h7 : wordAfterOK .norm "OR".toList t = true) :
+    ∃ r, parse (resolve .or h t).strHT = .ok r ∧ r.eqv (norm (resolve .or h t)) = true :=
+  c11_resolve_query_partial q t .or h hq hk (Or.inr rfl) hh hne
+    (noLooser_resolve_or t h (Reparse.parse_canon q t hq)) h7
+
+/-- **`UnknownOperationResolver` in lucene mode (`resolve_to=None`, the default), any printable tree**
+(up to KF6, KF7): an implicit operation becomes an AND or an OR operation (the class of the explicit
+operation seen last); same statement, same hypotheses on the result -/
+theorem c11_resolve_lucene_printable_partial (t : Tree) (h : Str) (hp : printable t = true)
+    (hh : isBlank h = true) (h6 : noLooserOperand (resolve .lucene h t) = true)
+    (h7 : treeGluesOK .norm (resolve .lucene h t) = true) :
+    ∃ r, parse (resolve .lucene h t).strHT = .ok r ∧ r.eqv (norm (resolve .lucene h t)) = true := by
+  simp only [printable, Bool.and_eq_true] at hp
+  obtain ⟨⟨⟨⟨⟨h1, h2⟩, h3⟩, h4⟩, h5⟩, _⟩ := hp
+  obtain ⟨l1, l2, l3, l4, l5⟩ := lucene_hyps h hh t h1 h2 h3 h4 h5 h6
+  exact reparse_norm _ l1 l2 l3 l4 l5 h7
+
+/-- **C11, `UnknownOperationResolver` in lucene mode** (up to KF1, KF6, KF7) -/
+theorem c11_resolve_lucene_partial (q : Str) (t : Tree) (h : Str) (hq : parse q = .ok t)
+    (hk : noBlankBeforeColon (lex q).1 = true) (hh : isBlank h = true)
+    (h6 : noLooserOperand (resolve .lucene h t) = true)
+    (h7 : treeGluesOK .norm (resolve .lucene h t) = true) :
+    ∃ r, parse (resolve .lucene h t).strHT = .ok r ∧ r.eqv (norm (resolve .lucene h t)) = true :=
+  c11_resolve_lucene_printable_partial t h (parse_printable q t hq hk) hh h6 h7
+
+/-- the lucene mode on a query without explicit AND / OR is resolving to AND (C10): KF6 cannot happen,
+and the hypothesis for KF7 can be put on the query -/
+theorem c11_resolve_lucene_noAndOr_partial (q : Str) (t : Tree) (h : Str) (hq : parse q = .ok t)
+    (hk : noBlankBeforeColon (lex q).1 = true) (hh : isBlank h = true) (hne : h ≠ [])
+    (hno : C10.hasAndOr t = false) (h7 : wordAfterOK .norm "AND".toList t = true) :
+    ∃ r, parse (resolve .lucene h t).strHT = .ok r ∧ r.eqv (norm (resolve .lucene h t)) = true := by
+  have e : resolve .lucene h t = resolve .and h t := by
+    rw [C10.resolve_lucene_noAndOr h t hno, resolve_explicit .and (by decide) h t]; rfl
+  rw [e]
+  refine c11_resolve_query_partial q t .and h hq hk (Or.inl rfl) hh hne ?_ h7
+  rw [resolve_explicit .and (by decide) h t]
+  exact noLooser_relabel_and_noAndOr h t false (Reparse.parse_canon q t hq) hno
+
+/-- **same meaning**: under the hypotheses of any of the theorems above, the tree parsed back has the
+boolean meaning (layout and numeral spelling disregarded) of the transformed tree, on every document,
+in every field context, an implicit operation being read as AND or as OR -/
+theorem c11_meaning (u r : Tree) (h : r.eqv (norm u) = true) (dflt : OpK) (hd : dflt = .and ∨ dflt = .or)
+    (τ : Option Str → Str → Bool) (fld : Option Str) : meaning dflt τ fld r = meaning dflt τ fld u :=
+  meaning_of_eqv_norm dflt hd τ fld r u h
+
+/-! ### (5) non-vacuity and negative witnesses (kernel-checked) -/
+
+private def sp : Str := [' ']
+
+/-- a query with an AND, an OR and an implicit operation, a group, a field, a range, a boost, NOT, a
+proximity and a fuzzy term, `-`, and two open ranges -/
+private def q0 : Str := "a AND (f:[1 TO 5}^2.50 OR NOT \"x y\"~3) >=3 -b~ <z".toList
+
+/-- `T t` is printed as `txt`, which parses into a tree equal to `T t` (`strict`) or to its normal
+form only -/
+private def roundTrip (q : Str) (T : Tree → Tree) (txt : String) (strict : Bool) : Bool :=
+  match parse q with
+  | .ok t =>
+    decide ((T t).strHT = txt.toList) &&
+    (match parse (T t).strHT with
+     | .ok r => r.eqv (norm (T t)) && (r.eqv (T t) == strict)
+     | .error _ => false)
+  | .error _ => false
+
+/-- the hypotheses of the theorems, on the result of `T` for the query `q`:
+`[no blank before a colon, no looser operand, adjacency]` -/
+private def hyps (q : Str) (T : Tree → Tree) : List Bool :=
+  match parse q with
+  | .ok t => [noBlankBeforeColon (lex q).1, noLooserOperand (T t), treeGluesOK .norm (T t)]
+  | .error _ => []
+
+/-- `T t` is printed as `txt`, which does not parse into a tree equal to the normal form of `T t` -/
+private def fails (q : Str) (T : Tree → Tree) (txt : String) : Bool :=
+  match parse q with
+  | .ok t =>
+    decide ((T t).strHT = txt.toList) &&
+    (match parse (T t).strHT with
+     | .ok r => !r.eqv (norm (T t))
+     | .error _ => true)
+  | .error _ => false
+
+example : noBlankBeforeColon (lex q0).1 = true := by decide +kernel
+
+/-- default transformer: by the theorem, and by evaluation -/
+example : ∀ t, parse q0 = .ok t → ∃ r, parse t.copy.strHT = .ok r ∧ r.eqv t.copy = true :=
+  fun t h => c11_copy_partial q0 t h (by decide +kernel)
+example : roundTrip q0 Tree.copy "a AND (f:[1 TO 5}^2.5 OR NOT \"x y\"~3) >=3 -b~ <z" true = true := by
+  decide +kernel
+
+/-- `auto_head_tail` -/
+example : ∀ t t', parse q0 = .ok t → aht t = some t' → ∃ r, parse t'.strHT = .ok r ∧ r.eqv t' = true :=
+  fun t t' h ha => c11_aht_partial q0 t t' h (by decide +kernel) ha
+example : roundTrip q0 (fun t => (aht t).getD t)
+    "a AND (f:[1 TO 5}^2.5  OR NOT \"x y\"~3)  >=3  -b~  <z" true = true ∧
+    (match parse q0 with | .ok t => (aht t).isSome | .error _ => false) = true := by decide +kernel
+
+/-- a query where `auto_head_tail` separates glued tokens -/
+example : roundTrip "a(b)AND c d".toList (fun t => (aht t).getD t) "a (b) AND c  d" true = true := by
+  decide +kernel
+
+/-- `OpenRangeTransformer(merge_ranges=False, add_head=" ")` -/
+example : ∀ t, parse q0 = .ok t →
+    ∃ r, parse (openRange false sp t).strHT = .ok r ∧ r.eqv (openRange false sp t) = true :=
+  fun t h => c11_openrange_partial q0 t sp h (by decide +kernel) (by decide +kernel) (by decide)
+example : roundTrip q0 (openRange false sp)
+    "a AND (f:[1 TO 5}^2.5 OR NOT \"x y\"~3) [3  TO *]-b~ [* TO z}" true = true := by decide +kernel
+
+/-- `OpenRangeTransformer(merge_ranges=True, add_head=" ")`: the first AND operation is left with
+one operand, the result is equal to the normal form only -/
+private def q1 : Str := "x:(>1 AND <5) OR y:>=2 AND y:<3 AND w".toList
+
+example : hyps q1 (openRange true sp) = [true, true, true] := by decide +kernel
+example : ∀ t, parse q1 = .ok t →
+    ∃ r, parse (openRange true sp t).strHT = .ok r ∧ r.eqv (norm (openRange true sp t)) = true :=
+  fun t h => c11_openrange_merge_partial q1 t sp h (by decide +kernel) (by decide +kernel)
+    (by
+      have : (match parse q1 with
+          | .ok t => treeGluesOK .norm (openRange true sp t) | .error _ => false) = true := by
+        decide +kernel
+      rw [h] at this; exact this)
+example : roundTrip q1 (openRange true sp) "x:({1  TO 5}) OR y:[2  TO *]AND y:[* TO 3 }AND w" false = true := by
+  decide +kernel
+
+/-- `UnknownOperationResolver(resolve_to=AndOperation, add_head=" ")`: the resolved operation has an
+AND operation as first operand, the result is equal to the normal form only -/
+example : hyps q0 (resolve .and sp) = [true, true, true] := by decide +kernel
+example : ∀ t, parse q0 = .ok t →
+    ∃ r, parse (resolve .and sp t).strHT = .ok r ∧ r.eqv (norm (resolve .and sp t)) = true :=
+  fun t h => c11_resolve_partial q0 t .and sp h (by decide +kernel) (Or.inl rfl) (by decide +kernel)
+    (by
+      have : (match parse q0 with
+          | .ok t => noLooserOperand (resolve .and sp t) | .error _ => false) = true := by
+        decide +kernel
+      rw [h] at this; exact this)
+    (by
+      have : (match parse q0 with
+          | .ok t => treeGluesOK .norm (resolve .and sp t) | .error _ => false) = true := by
+        decide +kernel
+      rw [h] at this; exact this)
+example : roundTrip q0 (resolve .and sp)
+    "a AND (f:[1 TO 5}^2.5 OR NOT \"x y\"~3) AND >=3 AND -b~ AND <z" false = true := by decide +kernel
+
+/-- `UnknownOperationResolver(resolve_to=OrOperation, add_head=" ")` -/
+example : hyps q0 (resolve .or sp) = [true, true, true] ∧
+    roundTrip q0 (resolve .or sp)
+      "a AND (f:[1 TO 5}^2.5 OR NOT \"x y\"~3) OR >=3 OR -b~ OR <z" true = true := by decide +kernel
+
+/-- `UnknownOperationResolver()` (lucene mode) -/
+example : hyps q0 (resolve .lucene sp) = [true, true, true] := by decide +kernel
+example : ∀ t, parse q0 = .ok t →
+    ∃ r, parse (resolve .lucene sp t).strHT = .ok r ∧ r.eqv (norm (resolve .lucene sp t)) = true :=
+  fun t h => c11_resolve_lucene_partial q0 t sp h (by decide +kernel) (by decide +kernel)
+    (by
+      have : (match parse q0 with
+          | .ok t => noLooserOperand (resolve .lucene sp t) | .error _ => false) = true := by
+        decide +kernel
+      rw [h] at this; exact this)
+    (by
+      have : (match parse q0 with
+          | .ok t => treeGluesOK .norm (resolve .lucene sp t) | .error _ => false) = true := by
+        decide +kernel
+      rw [h] at this; exact this)
+example : roundTrip q0 (resolve .lucene sp)
+    "a AND (f:[1 TO 5}^2.5 OR NOT \"x y\"~3) AND >=3 AND -b~ AND <z" false = true := by decide +kernel
+
+/-- `a OR b c` resolved to OR is `Or(Or(a, b), c)`: equal to the normal form only -/
+example : hyps "a OR b c".toList (resolve .or sp) = [true, true, true] ∧
+    roundTrip "a OR b c".toList (resolve .or sp) "a OR b OR c" false = true := by decide +kernel
+
+/-- **KF6**: `a OR b c` resolved to AND is `And(Or(a, b), c)`, printed without parentheses -/
+example : hyps "a OR b c".toList (resolve .and sp) = [true, false, true] ∧
+    fails "a OR b c".toList (resolve .and sp) "a OR b AND c" = true := by decide +kernel
+
+/-- the condition on the query for KF7 holds for `q0` (both operator words), so the resolved trees
+satisfy the adjacency condition by `resolved_gluesOK` -/
+example : (match parse q0 with
+    | .ok t => wordAfterOK .norm "AND".toList t && wordAfterOK .norm "OR".toList t
+    | .error _ => false) = true := by decide +kernel
+example : ∀ t, parse q0 = .ok t →
+    ∃ r, parse (resolve .or sp t).strHT = .ok r ∧ r.eqv (norm (resolve .or sp t)) = true :=
+  fun t h => c11_resolve_or_partial q0 t sp h (by decide +kernel) (by decide +kernel) (by decide)
+    (by
+      have : (match parse q0 with
+          | .ok t => wordAfterOK .norm "OR".toList t | .error _ => false) = true := by decide +kernel
+      rw [h] at this; exact this)
+
+/-- … and fails for `a(b)` -/
+example : (match parse "a(b)".toList with
+    | .ok t => wordAfterOK .norm "AND".toList t
+    | .error _ => true) = false := by decide +kernel
+
+/-- … also in lucene mode (the implicit operation is visited before the OR below it) -/
+example : hyps "a OR b c".toList (resolve .lucene sp) = [true, false, true] ∧
+    fails "a OR b c".toList (resolve .lucene sp) "a OR b AND c" = true := by decide +kernel
+
+/-- **KF7**: `a(b)` resolved to AND: the operator word is glued to `a` -/
+example : hyps "a(b)".toList (resolve .and sp) = [true, true, false] ∧
+    fails "a(b)".toList (resolve .and sp) "aAND (b)" = true := by decide +kernel
+
+/-- **the empty `add_head`**: `>5` becomes `{5TO*]`, a syntax error -/
+example : hyps ">5".toList (openRange false []) = [true, true, false] ∧
+    fails ">5".toList (openRange false []) "{5TO*]" = true := by decide +kernel
+
+/-- **KF12** (found here): `>1 AND a~2AND <5 3` with merging: `<5` is merged into `>1` and
+disappears with the blank behind it, `a~2` is now followed by `3` -/
+example : hyps ">1 AND a~2AND <5 3".toList (openRange true sp) = [true, true, false] ∧
+    fails ">1 AND a~2AND <5 3".toList (openRange true sp) "{1  TO 5 }AND a~23" = true ∧
+    ((parse "{1  TO 5 }AND a~23".toList).map Tree.strHT) = .ok "{1  TO 5 }AND a~23".toList := by
+  decide +kernel
+
+/-- **KF1 / KF8**: `T12 :30` is a field; every transformer drops the blank before the colon, and
+`T12:30` is one word -/
+example : hyps "T12 :30".toList Tree.copy = [false, true, false] ∧
+    fails "T12 :30".toList Tree.copy "T12:30" = true := by decide +kernel
+
+/-- `resolve_to=BoolOperation`: a `BoolOperation` is printed as a juxtaposition, which parses into
+an `UnknownOperation`: never equal -/
+example : fails "a b".toList (resolve .bool sp) "a  b" = true := by decide +kernel
+
 end Luqum.Props.C11
